@@ -5,6 +5,7 @@
 From Coq Require Import ZArith NArith List Bool Arith.
 Import ListNotations.
 From PV Require Import Login.Model Login.Proofs.
+From PV Require Import Base.PySeq Base.Rx Expect.Model Expect.Refine Expect.SpecFacts Login.Prompt.
 
 (** For EVERY dialogue and EVERY option setting: the password is sent only as the direct answer to a
     password/passphrase prompt and at most once; 'yes' only as the direct answer to the host-key question; the
@@ -31,6 +32,43 @@ Theorem C17_silent_success_refuted :
   run_login {| auto_prompt_reset := false; sync_original := false |} [AI 5] = (RetTrue, [Spawn; Ask QInit (AI 5)]).
 Proof. exact silent_success. Qed.
 Print Assumptions C17_silent_success_refuted.
+
+(** prompt() delimits each command's output exactly.  The session from here on is o ++ p ++ rest: the output of the command, the
+    prompt text, whatever follows (type-ahead: echoes, outputs and prompts of further commands).  Under the UNIQUENESS of the
+    prompt (a hypothesis about the remote side: in every prefix of the session in which PROMPT occurs at all, its leftmost
+    occurrence is p at the end of o) - for every regex engine, every way the session is cut into reads, whatever is already
+    pending or arrives during the call, whatever the timeout: if prompt() reports a prompt (True), before is exactly o, after
+    is exactly p, and what is pending afterwards is what had arrived of rest; if it reports False, nothing was consumed. *)
+Theorem C17_prompt_delimits :
+  forall (rx : Type) (re_search : rx -> text -> nat -> option (nat * nat)) (P : rx),
+  (forall r t p a b, re_search r t p = Some (a, b) -> a <= b) ->
+  forall o p rest t0 s evs, Inv s ->
+  (forall t z a b, t ++ z = o ++ p ++ rest -> re_search P t 0 = Some (a, b) ->
+                   a = length o /\ b = length o + length p /\ b <= length t) ->
+  (exists z, (pend s ++ data_of evs) ++ z = o ++ p ++ rest) ->
+  match prompt rx re_search P t0 s evs with
+  | (PTrue, r, s', e') => exists sp used, evs = used ++ e' /\ r = Matched 0 o p sp /\
+                          pend s' = skipn (length o + length p) (pend s ++ data_of used)
+  | (PFalse, r, s', e') => exists used, evs = used ++ e' /\ pend s' = pend s ++ data_of used /\ r = AtTimeout (Some 1) (pend s')
+  | (PRaises r, _, s', e') => forall i b a sp, r <> Matched i b a sp
+  end.
+Proof. exact prompt_delimits. Qed.
+Print Assumptions C17_prompt_delimits.
+
+(** non-vacuity, with the executable engine and PROMPT = \[PEXPECT\][\$\#] followed by a blank: two commands typed ahead, everything in one read *)
+Example C17_prompt_type_ahead :
+  let P := Seq (Lit [91; 80; 69; 88; 80; 69; 67; 84; 93]%N) (Seq (Cls false [36; 35]%N) (Chr 32%N)) in
+  let session := [111; 49; 10; 91; 80; 69; 88; 80; 69; 67; 84; 93; 36; 32; 111; 50; 10; 91; 80; 69; 88; 80; 69; 67; 84; 93; 35; 32]%N in
+  match prompt rx rx_search P false {| pend := []; buf := [] |} [Data session] with
+  | (PTrue, Matched 0 b a _, s', _) =>
+      b = [111; 49; 10]%N /\ a = [91; 80; 69; 88; 80; 69; 67; 84; 93; 36; 32]%N /\
+      match prompt rx rx_search P false s' [] with
+      | (PTrue, Matched 0 b2 a2 _, _, _) => b2 = [111; 50; 10]%N /\ a2 = [91; 80; 69; 88; 80; 69; 67; 84; 93; 35; 32]%N
+      | _ => False
+      end
+  | _ => False
+  end.
+Proof. vm_compute. repeat split. Qed.
 
 (** non-vacuity: a full successful dialogue (host key, password, terminal type, prompt, re-sync, unique prompt via csh) *)
 Example C17_full_dialogue :
